@@ -145,11 +145,30 @@ func (r *chainRes) chain(depth int, innerContent string, perLevel bool) string {
 		name = r.name("Fm")
 		r.put("XObject", name, ref)
 		content = paint(name)
+		if b.rng.IntN(3) == 0 {
+			// a sibling WITH its own resources, painted by the same (resource-less) content
+			sib := r.ownResForm()
+			if b.rng.IntN(2) == 0 {
+				content = paint(sib) + content
+			} else {
+				content += paint(sib)
+			}
+		}
 		if perLevel && level > 1 {
 			content += r.use(OptChainCategories[b.rng.IntN(len(OptChainCategories))])
 		}
 	}
 	return name
+}
+
+// ownResForm adds a form XObject that HAS its own /Resources (a font of its own under a name the page
+// uses too) to the page's XObject resources and returns its name.
+func (r *chainRes) ownResForm() string {
+	b := r.b
+	f := b.form(optForm{content: "BT\n/F1 7 Tf\n1 1 Td\n(own) Tj\nET\n", resources: D("Font", D("F1", b.font(b.newFontSpec()))), bbox: A(0, 0, 40, 40), filters: b.filters()})
+	n := r.name("FmOwn")
+	r.put("XObject", n, f)
+	return n
 }
 
 func chainDetail(depth int, cats []string) string {
@@ -169,23 +188,34 @@ func (b *optBuilder) chainScenario(s string) {
 		}
 		p.content = [][]byte{[]byte(c)}
 	}
+	// withSibling: the page itself paints a form with own resources next to the chain(s), before or after them
+	withSibling := func(top ...string) []string {
+		if b.rng.IntN(2) == 0 {
+			return top
+		}
+		sib := r.ownResForm()
+		if b.rng.IntN(2) == 0 {
+			return append([]string{sib}, top...)
+		}
+		return append(top, sib)
+	}
 	switch s {
 	case "form-chain-no-resources":
 		depth := 1 + b.rng.IntN(4)
 		inner, cats := r.innermost()
-		top := r.chain(depth, inner, false)
+		tops := withSibling(r.chain(depth, inner, false))
 		p := b.addPage(nil, s, nil)
 		p.resources = r.dict()
 		p.detail = chainDetail(depth, cats)
-		pageText(p, top)
+		pageText(p, tops...)
 	case "form-chain-each-level-uses":
 		depth := 2 + b.rng.IntN(3)
 		inner, cats := r.innermost()
-		top := r.chain(depth, inner, true)
+		tops := withSibling(r.chain(depth, inner, true))
 		p := b.addPage(nil, s, nil)
 		p.resources = r.dict()
 		p.detail = chainDetail(depth, cats)
-		pageText(p, top)
+		pageText(p, tops...)
 	case "form-chain-diamond":
 		// two outer forms (each under 0..2 further resource-less forms) paint the same inner form
 		inner, cats := r.innermost()
@@ -199,6 +229,7 @@ func (b *optBuilder) chainScenario(s string) {
 			maxDepth = max(maxDepth, 2+extra)
 			tops = append(tops, r.chain(1+extra, paint(inName)+r.use("ExtGState"), false))
 		}
+		tops = withSibling(tops...)
 		p := b.addPage(nil, s, nil)
 		p.resources = r.dict()
 		p.detail = chainDetail(maxDepth, cats)
@@ -229,17 +260,17 @@ func (b *optBuilder) chainScenario(s string) {
 		r.put("XObject", midName, mid)
 		above := 1 + b.rng.IntN(2)
 		// the forms above the middle one are resource-less and use a page resource themselves
-		top := r.chain(above, paint(midName)+r.use("Font")+r.use("ExtGState"), false)
+		tops := withSibling(r.chain(above, paint(midName)+r.use("Font")+r.use("ExtGState"), false))
 		p := b.addPage(nil, s, nil)
 		p.resources = r.dict()
 		p.detail = chainDetail(above+1+below, cats) + " middle=own"
-		pageText(p, top)
+		pageText(p, tops...)
 	case "form-chain-inherited-resources":
 		// the resources sit on a /Pages node (or in one shared object); one page paints the chain, its
 		// siblings do not
 		depth := 2 + b.rng.IntN(3)
 		inner, cats := r.innermost()
-		top := r.chain(depth, inner, b.rng.IntN(2) == 0)
+		tops := withSibling(r.chain(depth, inner, b.rng.IntN(2) == 0))
 		var res Object = r.dict()
 		if b.rng.IntN(2) == 0 {
 			res = b.doc.Add(res)
@@ -261,7 +292,7 @@ func (b *optBuilder) chainScenario(s string) {
 			}
 			if i == painter {
 				p.detail = chainDetail(depth, cats) + " inherited"
-				pageText(p, top)
+				pageText(p, tops...)
 			} else {
 				pageText(p)
 			}
